@@ -42,6 +42,15 @@ Theorem C01_protocol_segmentation_independent : forall lbehs s a b l1 b1 l2 b2,
 Proof. exact data_received_split. Qed.
 Print Assumptions C01_protocol_segmentation_independent.
 
+(* session level: cutting any chunk of any history in two leaves the flattened trace unchanged *)
+Theorem C01_session_split_invariant : forall lbehs s a b l1 b1 l2 b2 ops,
+  stable (rev (p_buf s)) -> p_disc s = false ->
+  feed (p_buf s) a = (l1, b1) -> feed b1 b = (l2, b2) ->
+  forallb line_fits (l1 ++ l2) = true -> line_fits b1 = true -> line_fits b2 = true ->
+  concat (run lbehs s (ORecv (a ++ b) :: ops)) = concat (run lbehs s (ORecv a :: ORecv b :: ops)).
+Proof. exact run_split. Qed.
+Print Assumptions C01_session_split_invariant.
+
 Theorem C01_reply_ok_resolves_inflight : forall lbehs s i cm,
   at_rest s -> p_inflight s = Some cm -> ccb (cl cm) = false ->
   wf_item i = true -> is_2xx (icode i) = true -> item_fits i = true ->
